@@ -558,3 +558,71 @@ def kinds_optional_document():
     paths["/all"] = {"post": {"operationId": "all_kinds", "tags": ["kinds"], "parameters": allp,
                               "requestBody": {"content": {"application/json": {"schema": {"$ref": REF + "AllKinds"}}}}, "responses": ok}}
     return {"openapi": "3.1.0", "info": {"title": "kinds", "version": "1"}, "paths": paths, "components": {"schemas": schemas}}
+
+
+# ================================================================ C12 seventh round (ADDED): case twins with distinct modules; inline array-of-forward-ref members
+def case_twin_document():
+    """Two component models whose class names differ only in letter case but whose modules differ (FooBar -> foo_bar, Foobar -> foobar), used wherever a
+    SET of strings is sorted: as the 200 / 404 responses of an operation (Union[...] return annotation), as members of a union property, as
+    imports of a model and of an endpoint, as __all__ entries.  Any sort key other than the identity ties on them."""
+    o = lambda **p: {"type": "object", "properties": p}
+    ok = lambda a, b: {"200": {"description": "ok", "content": {"application/json": {"schema": a}}}, "404": {"description": "no", "content": {"application/json": {"schema": b}}}}
+    sch = {"FooBar": o(a={"type": "string"}), "Foobar": o(b={"type": "integer"}),
+           "BazQux": {"type": "string", "enum": ["x", "y"]}, "Bazqux": {"type": "string", "enum": ["p", "q"]},
+           "User": o(either={"oneOf": [_ref("FooBar"), _ref("Foobar")]}, one=_ref("FooBar"), two=_ref("Foobar"), e1=_ref("BazQux"), e2=_ref("Bazqux"),
+                     many={"type": "array", "items": {"anyOf": [_ref("Foobar"), _ref("FooBar")]}})}
+    paths = {"/x": {"get": {"operationId": "get_x", "tags": ["t"], "responses": ok(_ref("FooBar"), _ref("Foobar"))},
+                    "post": {"operationId": "post_x", "tags": ["t"], "requestBody": {"content": {"application/json": {"schema": _ref("Foobar")}}},
+                             "parameters": [{"name": "e1", "in": "query", "schema": _ref("BazQux")}, {"name": "e2", "in": "query", "schema": _ref("Bazqux")}],
+                             "responses": ok(_ref("Foobar"), _ref("FooBar"))}},
+             "/y": {"get": {"operationId": "get_y", "tags": ["t"], "responses": ok({"type": "array", "items": _ref("Foobar")}, {"type": "array", "items": _ref("FooBar")})}}}
+    return {"openapi": "3.1.0", "info": {"title": "twins", "version": "1"}, "paths": paths, "components": {"schemas": sch}}
+
+
+def corpus_retry2():
+    """Fixed documents (every order of components.schemas x paths): a union / array component whose INLINE member holds the forward reference
+    (array items, nested union, additionalProperties) - its first attempt fails with an error whose data is the member's own SCHEMA, not a Reference."""
+    base = lambda sch, paths=None: {"openapi": "3.1.0", "info": {"title": "t", "version": "1"}, "paths": paths or {}, "components": {"schemas": sch}}
+    o = lambda **p: {"type": "object", "properties": p}
+    ok = lambda s: {"200": {"description": "ok", "content": {"application/json": {"schema": s}}}}
+    out = []
+    out.append(("retry-inline-array-member", base(
+        {"HitOrHits": {"oneOf": [{"type": "array", "items": _ref("Hit")}, _ref("Hit")]}, "Page": o(results=_ref("HitOrHits")), "Hit": o(score={"type": "number"})},
+        {"/page": {"get": {"operationId": "get_page", "tags": ["x"], "responses": ok(_ref("Page"))}}})))
+    out.append(("retry-nested-union", base(
+        {"Deep": {"anyOf": [{"oneOf": [{"type": "array", "items": _ref("Leafy")}, {"type": "string"}]}, {"type": "integer"}]}, "Holder": o(deep=_ref("Deep")), "Leafy": o(v={"type": "integer"})},
+        {"/deep": {"get": {"operationId": "get_deep", "tags": ["x"], "responses": ok(_ref("Deep"))}}})))
+    out.append(("retry-inline-addl-member", base(
+        {"MapOr": {"oneOf": [{"type": "object", "additionalProperties": _ref("Val")}, {"type": "string"}]}, "Holder": o(m=_ref("MapOr")), "Val": o(v={"type": "integer"})},
+        {"/map": {"get": {"operationId": "get_map", "tags": ["x"], "responses": ok(_ref("MapOr"))}}})))
+    out.append(("retry-array-of-array", base(
+        {"Grid": {"type": "array", "items": {"type": "array", "items": _ref("Cell")}}, "Board": o(grid=_ref("Grid"), alt={"type": "array", "items": {"oneOf": [{"type": "array", "items": _ref("Cell")}, {"type": "null"}]}}),
+         "Cell": o(v={"type": "integer"})},
+        {"/grid": {"get": {"operationId": "get_grid", "tags": ["x"], "responses": ok(_ref("Grid"))}}})))
+    return out
+
+
+def add_inline_array_forward(doc: dict, rng: random.Random):
+    """for random documents: HitOrHits / Grid style components, declared before what they refer to"""
+    sch = doc.setdefault("components", {}).setdefault("schemas", {})
+    if any(n in sch for n in ("HitOrHits", "Hit", "HitPage", "HitGrid")):
+        return None
+    o = lambda **p: {"type": "object", "properties": p}
+    new = {"HitOrHits": {rng.choice(["oneOf", "anyOf"]): [{"type": "array", "items": _ref("Hit")}, _ref("Hit")]},
+           "HitGrid": {"type": "array", "items": {"type": "array", "items": _ref("Hit")}},
+           "HitPage": o(results=_ref("HitOrHits"), grid=_ref("HitGrid")), "Hit": o(score={"type": "number"})}
+    for k, v in new.items():
+        sch[k] = v
+    doc.setdefault("paths", {})["/hitpage"] = {"get": {"operationId": "get_hit_page", "tags": ["results"],
+                                                        "responses": {"200": {"description": "ok", "content": {"application/json": {"schema": _ref("HitPage")}}}}}}
+    return list(new)
+
+
+def gen_document_c12b(rng: random.Random, pressure=False):
+    doc, feats = gen_document_c12(rng, pressure=pressure)
+    feats = list(feats)
+    if rng.random() < 0.7 and add_inline_array_forward(doc, rng):
+        feats.append("inline-array-forward-ref")
+        doc["components"]["schemas"] = _shuffled(doc["components"]["schemas"], rng)
+        doc["paths"] = _shuffled(doc["paths"], rng)
+    return doc, sorted(feats)
